@@ -15,6 +15,11 @@ THEOREMS = [
     "TornadoModel.C25.unquote_quote",
     "TornadoModel.C25.set_then_parse",
     "TornadoModel.C25.attrs_exact",
+    "TornadoModel.C25.accepted_morsel_clean",
+    "TornadoModel.C25.accepted_morsel_strict",
+    "TornadoModel.C25.accepted_attrs_exact",
+    "TornadoModel.C25.accepted_attrs_exact_jar",
+    "TornadoModel.C25.accepted_attrs_args",
     "TornadoModel.C25.last_wins",
     "TornadoModel.C25.jar_names_unique",
     "TornadoModel.C25.ending_keeps_cookies",
@@ -44,8 +49,11 @@ CLAUSES = {
         "set_then_parse + unquote_quote; ending_keeps_cookies (the response carries the jar's cookies whichever way the handler ends - "
         "finish, send_error, raise HTTPError, uncaught exception, redirect - and across clear())",
     "carrying exactly the requested attributes, with no extra attributes or cookies":
-        "attrs_exact (for every Morsel whose text attributes hold no ';') + jar_names_unique; "
-        "tie only: that every accepted call builds such a Morsel (accepted_morsel_clean_goal, checked on every emitted cookie)",
+        "accepted_attrs_exact / accepted_attrs_exact_jar (every accepted call: the client reads name=coded followed by exactly the "
+        "requested attributes) = attrs_exact (for every Morsel whose text attributes hold no ';') + accepted_morsel_clean "
+        "(every accepted call builds such a Morsel, given a ';'-free format_timestamp text; accepted_morsel_strict: no control "
+        "characters either) + accepted_attrs_args (without deprecated keywords the attributes are the call's own arguments) + "
+        "jar_names_unique",
     "Setting the same name twice in one response emits only the last setting": "last_wins + jar_names_unique",
     "set_signed_cookie / clear_cookie": "tie: both delegate to set_cookie; the harness feeds the model the signed value / expiry they computed",
 }
